@@ -257,20 +257,27 @@ type c14Case struct {
 	Subset  []string `json:"subset,omitempty"` // CLI: requested targets
 }
 
-func soloOutputs(text string) (map[string]map[string][]byte, bool) {
+// soloOutputs generates every target alone, each over a fresh parse. A generator may refuse a
+// model (Lua, Python and C++ need a root packet): that outcome is recorded per language.
+func soloOutputs(text string) (map[string]map[string][]byte, map[string]string, bool) {
 	out := map[string]map[string][]byte{}
+	errs := map[string]string{}
 	for _, l := range inproc.Langs {
 		r := inproc.Compile(text, []string{l})
-		if !r.OK() {
-			return nil, false
+		if r.ParseErr != "" || r.Panic != "" || len(r.Diags) > 0 || r.Model == nil {
+			return nil, nil, false
+		}
+		if e := r.GenErr[l]; e != "" {
+			errs[l] = e
+			continue
 		}
 		out[l] = r.Files[l]
 	}
-	return out, true
+	return out, errs, true
 }
 
 func evalC14(k c14Case) []pbt.Violation {
-	solo, ok := soloOutputs(k.Text)
+	solo, soloErr, ok := soloOutputs(k.Text)
 	if !ok {
 		return nil
 	}
@@ -280,19 +287,32 @@ func evalC14(k c14Case) []pbt.Violation {
 	}
 	snap0 := inproc.Snapshot(res.Model)
 	for i, l := range k.History {
+		delete(res.GenErr, l)
+		delete(res.Files, l)
 		inproc.Gen(res, l)
 		if res.Panic != "" {
 			return []pbt.Violation{{Signature: "history-panics:" + l, Detail: fmt.Sprintf("generator %s panics after history %v although it works alone: %s", l, k.History[:i], res.Panic)}}
 		}
+		prev := "(none)"
+		if i > 0 {
+			prev = strings.Join(uniq(k.History[:i]), ",")
+		}
+		if (soloErr[l] != "") != (res.GenErr[l] != "") {
+			return []pbt.Violation{{Signature: "outcome-depends-on-history:" + l, Detail: fmt.Sprintf("alone, %s ends with %q; after running %s it ends with %q and %d files", l, soloErr[l], prev, res.GenErr[l], len(res.Files[l]))}}
+		}
+		if soloErr[l] != "" {
+			continue
+		}
 		if d := inproc.FilesEqual(solo[l], res.Files[l]); d != "" {
-			prev := "(none)"
-			if i > 0 {
-				prev = strings.Join(uniq(k.History[:i]), ",")
-			}
 			return []pbt.Violation{{Signature: "output-depends-on-history:" + l, Detail: fmt.Sprintf("output of %s after running %s differs from its output alone: %s", l, prev, d)}}
 		}
 		if s := inproc.Snapshot(res.Model); s != snap0 {
 			return []pbt.Violation{{Signature: "model-mutated-by:" + l, Detail: fmt.Sprintf("generator %s altered the parsed model: %s", l, snapDiff(snap0, s))}}
+		}
+	}
+	for _, l := range k.Subset {
+		if soloErr[l] != "" {
+			return nil // the CLI stops at the first target that refuses the model
 		}
 	}
 	if len(k.Subset) > 0 && cli.Bin() != "" && k.SharedDir {
@@ -388,6 +408,15 @@ func TestC14(t *testing.T) {
 	n := 0
 	c.Check(t, func(rt *rapid.T) {
 		p := dsl.GenProgram(rt, dsl.GenCfg{MaxPackets: 4, Avoid: avoid, Shapes: true, AnyOrder: true, KeywordNames: true})
+		// without a root packet three generators refuse the model, alone and after any other
+		if !dsl.Has(p.Features(), "len") && rapid.IntRange(0, 5).Draw(rt, "no_root") == 0 {
+			p.RootPacket().Root = false
+			c.Class("program-without-root-packet")
+		}
+		// two match fields selected by ONE key field
+		if rapid.IntRange(0, 3).Draw(rt, "second_match_same_key") == 0 && dsl.AddSecondMatchSameKey(rt, p) {
+			c.Class("two-match-fields-on-one-key")
+		}
 		hist := rapid.SliceOfN(rapid.SampledFrom(inproc.Langs), 2, 12).Draw(rt, "history")
 		k := c14Case{Text: dsl.PlainText(p), History: hist}
 		n++
